@@ -4,6 +4,9 @@
   CRModel/Refs.lean the C10 theorems are about.  A source edit that changes what one of these functions does to the id-valued
   references (a relation forgotten in a cleanup, a dropped cleanup call, a changed drop rule for incoming elements, ...) makes
   a `tie_*` theorem fail at build time, for all networks at once.
+  No translated function is cut short: `create_from_lanelet_network` is tied as a whole to `Net.cutOut`
+  (`tie_create_from_lanelet_network`), `remove_hanging_lanelet_members` to its end to `Scn.removeHanging`
+  (`tie_remove_hanging_lanelet_members`), and `Scenario.remove_lanelet` calls that translation, not the model.
 -/
 import Gen.SrcC10
 import CRModel.Refs
@@ -334,29 +337,6 @@ theorem tie_scn_remove_intersection_list (s : Scn) (is : List Intersection) :
   intro s x is
   rw [tie_scn_remove_intersection_one, Scn.removeInters]; exact andThen_match _ _
 
-/-- `Scenario.remove_lanelet` (list form; `hang` := the model of remove_hanging_lanelet_members) is the model's `removeLanelets`. -/
-theorem tie_scn_remove_lanelet_list (s : Scn) (args : List RmArg) (r : Bool) :
-    Gen.Scenario_remove_lanelet_list s args r Scn.removeHanging = s.removeLanelets args r := by
-  have loop : ∀ s : Scn, PyR.forEach (fun self (la : RmArg) =>
-        if (PyR.findLanelet self.net la.id).isNone = true then (self, some Err.key)
-        else PyR.idSetRemove ({ self with net := Gen.LaneletNetwork_remove_lanelet self.net la.id } : Scn) la.id) s args
-      = s.removeLaneletLoop (args.map (·.id)) := by
-    intro s
-    refine forEach_eq _ (·.id) Scn.removeLaneletLoop (fun _ => rfl) ?_ s args
-    intro s x is
-    rw [Scn.removeLaneletLoop]
-    have hn : (PyR.findLanelet s.net x.id).isNone = !(s.net.lids.contains x.id) :=
-      find_isNone (fun (x : Lanelet) => x.id) s.net.lanelets x.id
-    simp only [hn, tie_remove_lanelet, PyR.idSetRemove]
-    by_cases h : s.net.lids.contains x.id = true
-    · rw [if_pos h, if_neg (by rw [h]; decide)]; exact andThen_match _ _
-    · rw [if_neg h, if_pos (by cases hc : s.net.lids.contains x.id <;> simp_all)]; rfl
-  unfold Gen.Scenario_remove_lanelet_list Scn.removeLanelets
-  simp only [andThen_pure, loop]
-  cases r
-  · rfl
-  · simp only [if_true]; exact (andThen_match _ _).symm
-
 theorem foldl_append_if (c : Elem → Bool) (xs : List Elem) (acc : List Id) :
     xs.foldl (fun acc t => if c t then acc ++ [t.1] else acc) acc = acc ++ (xs.filter c).map (·.1) := by
   induction xs generalizing acc with
@@ -386,5 +366,385 @@ theorem tie_hanging_members (s : Scn) (args : List RmArg) :
   rw [foldl_append_if (fun t => _ && !_), foldl_append_if (fun t => _ && !_)]
   simp only [List.nil_append, Net.sids, Net.tids, List.filter_map, List.flatMap_def, PyR.mem]
   rfl
+
+
+theorem foldl_append_found (c : Elem → Bool) (g : Id → Elem) (xs : List Elem) (acc : List Elem) :
+    xs.foldl (fun acc t => if c t then acc ++ [g t.1] else acc) acc = acc ++ (xs.filter c).map (fun t => g t.1) := by
+  induction xs generalizing acc with
+  | nil => simp
+  | cons x xs ih =>
+    simp only [List.foldl_cons, ih, List.filter_cons]
+    by_cases h : c x = true <;> simp [h]
+
+theorem foundSign_id (n : Net) (i : Id) : (PyR.foundSign n i).1 = i := by
+  unfold PyR.foundSign PyR.findSign
+  rcases h : n.signs.find? (fun s => s.1 == i) with _ | e
+  · simp [h]
+  · have := List.find?_some h
+    simpa [h] using this
+
+theorem foundLight_id (n : Net) (i : Id) : (PyR.foundLight n i).1 = i := by
+  unfold PyR.foundLight PyR.findLight
+  rcases h : n.lights.find? (fun s => s.1 == i) with _ | e
+  · simp [h]
+  · have := List.find?_some h
+    simpa [h] using this
+
+/-- The WHOLE of `remove_hanging_lanelet_members` — which signs / lights are picked AND the two final calls of
+remove_traffic_sign / remove_traffic_light (list forms) with them, in this order, the lights only when the signs went
+through — is the model's `Scn.removeHanging`. -/
+theorem tie_remove_hanging_lanelet_members (s : Scn) (args : List RmArg) :
+    Gen.Scenario_remove_hanging_lanelet_members s args = s.removeHanging args := by
+  unfold Gen.Scenario_remove_hanging_lanelet_members Scn.removeHanging Net.hangingSigns Net.hangingLights
+  simp only [mem_diff, contains_unionAll, andThen_pure, tie_scn_remove_traffic_sign_list, tie_scn_remove_traffic_light_list]
+  rw [foldl_append_found (fun t => _ && !_), foldl_append_found (fun t => _ && !_)]
+  simp only [List.nil_append, List.map_map, Function.comp_def, foundSign_id, foundLight_id, andThen_match,
+    Net.sids, Net.tids, List.filter_map, List.flatMap_def, PyR.mem]
+  rfl
+
+/-- `Scenario.remove_lanelet` (list form, calling the TRANSLATED remove_hanging_lanelet_members) is the model's `removeLanelets`. -/
+theorem tie_scn_remove_lanelet_list (s : Scn) (args : List RmArg) (r : Bool) :
+    Gen.Scenario_remove_lanelet_list s args r = s.removeLanelets args r := by
+  have loop : ∀ s : Scn, PyR.forEach (fun self (la : RmArg) =>
+        if (PyR.findLanelet self.net la.id).isNone = true then (self, some Err.key)
+        else PyR.idSetRemove ({ self with net := Gen.LaneletNetwork_remove_lanelet self.net la.id } : Scn) la.id) s args
+      = s.removeLaneletLoop (args.map (·.id)) := by
+    intro s
+    refine forEach_eq _ (·.id) Scn.removeLaneletLoop (fun _ => rfl) ?_ s args
+    intro s x is
+    rw [Scn.removeLaneletLoop]
+    have hn : (PyR.findLanelet s.net x.id).isNone = !(s.net.lids.contains x.id) :=
+      find_isNone (fun (x : Lanelet) => x.id) s.net.lanelets x.id
+    simp only [hn, tie_remove_lanelet, PyR.idSetRemove]
+    by_cases h : s.net.lids.contains x.id = true
+    · rw [if_pos h, if_neg (by rw [h]; decide)]; exact andThen_match _ _
+    · rw [if_neg h, if_pos (by cases hc : s.net.lids.contains x.id <;> simp_all)]; rfl
+  unfold Gen.Scenario_remove_lanelet_list Scn.removeLanelets
+  simp only [andThen_pure, loop, tie_remove_hanging_lanelet_members]
+  cases r
+  · rfl
+  · simp only [if_true]; exact (andThen_match _ _).symm
+
+
+
+/-! ### the whole cut-out: `create_from_lanelet_network` = `Net.cutOut` -/
+
+theorem nodup_add (s : List Id) (x : Id) (h : s.Nodup) : (PyR.add s x).Nodup := by
+  unfold PyR.add
+  by_cases hx : s.contains x = true
+  · have hx' : x ∈ s := by simpa using hx
+    simp [hx', h]
+  · have hx' : x ∉ s := by simpa using hx
+    simp only [hx, Bool.false_eq_true, if_false]
+    exact List.nodup_append.mpr ⟨h, by simp, by intro a ha b hb; simp at hb; subst hb; exact fun e => hx' (e ▸ ha)⟩
+
+theorem nodup_foldl_add (xs s : List Id) (h : s.Nodup) : (xs.foldl (fun t x => PyR.add t x) s).Nodup := by
+  induction xs generalizing s with
+  | nil => simpa using h
+  | cons x xs ih => exact ih _ (nodup_add s x h)
+
+/-- With pairwise different lanelet ids (dict keys) the first loop collects the ids of the kept lanelets in network order;
+the sign / light id sets it builds have no duplicates. -/
+theorem cut_select_exact (n : Net) (keep : Id → Bool) :
+    (n.lids.Nodup → (Gen.LaneletNetwork_cut_select n keep).1 = (n.cutKept keep).map (·.id)) ∧
+    (Gen.LaneletNetwork_cut_select n keep).2.1.Nodup ∧ (Gen.LaneletNetwork_cut_select n keep).2.2.Nodup := by
+  unfold Gen.LaneletNetwork_cut_select Net.cutKept Net.lids
+  dsimp only
+  let I := fun (pre : List Lanelet) (st : List Id × List Id × List Id) =>
+      ((pre.map (·.id)).Nodup → st.1 = (pre.filter (fun l => keep l.id)).map (·.id)) ∧ st.2.2.Nodup ∧ st.2.1.Nodup
+  show I n.lanelets (List.foldl _ ([], [], []) n.lanelets)
+  refine foldl_inv _ I ?_ n.lanelets [] ([], [], []) (by simp [I])
+  rintro pre x ⟨l, tl, ts⟩ ⟨h1, h2, h3⟩
+  show I _ _
+  simp only [I]
+  by_cases hk : keep x.id = true
+  · simp only [hk, Bool.not_true, Bool.false_eq_true, if_false]
+    refine ⟨?_, nodup_foldl_add _ _ h2, nodup_foldl_add _ _ h3⟩
+    intro hnd
+    rw [List.map_append, List.nodup_append] at hnd
+    have hl := h1 hnd.1
+    simp only at hl
+    have hx : x.id ∉ l := by
+      rw [hl]
+      intro hm
+      rcases List.mem_map.mp hm with ⟨y, hy, hyx⟩
+      exact hnd.2.2 y.id (List.mem_map_of_mem (List.mem_filter.mp hy).1) x.id (by simp) hyx
+    subst hl
+    simp only [PyR.add, List.contains_eq_mem, hx, decide_false, Bool.false_eq_true, if_false]
+    simp [List.filter_append, hk]
+  · have hk' : keep x.id = false := by simpa using hk
+    simp only [hk', Bool.not_false, if_true]
+    refine ⟨?_, h2, h3⟩
+    intro hnd
+    rw [List.map_append, List.nodup_append] at hnd
+    have hl := h1 hnd.1
+    simp only at hl
+    simp [hl, List.filter_append, hk']
+
+theorem find_some_self {α : Type} (key : α → Id) (xs : List α) (h : (xs.map key).Nodup) (e : α) (he : e ∈ xs) :
+    xs.find? (fun s => key s == key e) = some e := by
+  induction xs with
+  | nil => simp at he
+  | cons x xs ih =>
+    rw [List.map_cons, List.nodup_cons] at h
+    by_cases hx : key x = key e
+    · have : x = e := by
+        rcases List.mem_cons.mp he with h' | h'
+        · exact h'.symm
+        · exact absurd (hx ▸ List.mem_map_of_mem h') h.1
+      simp [List.find?_cons, this]
+    · have hx' : (key x == key e) = false := by simpa using hx
+      have he' : e ∈ xs := by
+        rcases List.mem_cons.mp he with h' | h'
+        · exact absurd (h' ▸ rfl) hx
+        · exact h'
+      simp only [List.find?_cons, hx']
+      exact ih h.2 he'
+
+theorem find_some_key {α : Type} (key : α → Id) (xs : List α) (i : Id) (e : α) (h : xs.find? (fun s => key s == i) = some e) :
+    key e = i ∧ e ∈ xs := by
+  have h1 := List.find?_some h
+  exact ⟨by simpa using h1, List.mem_of_find?_eq_some h⟩
+
+theorem all_congr_mem (p : Id → Bool) (xs ys : List Id) (h : ∀ a, a ∈ xs ↔ a ∈ ys) : xs.all p = ys.all p := by
+  rw [Bool.eq_iff_iff]
+  simp only [List.all_eq_true]
+  exact ⟨fun hx a ha => hx a ((h a).mpr ha), fun hy a ha => hy a ((h a).mp ha)⟩
+
+/-- the adding loop over the selected sign ids: AssertionError as soon as one id is not a sign of the source network, else
+the looked-up signs are appended in loop order (ids pairwise different and new to the target network) -/
+theorem forR_addSign (n : Net) : ∀ (ids : List Id) (acc : Net), ids.Nodup → (∀ i ∈ ids, i ∉ acc.sids) →
+    PyR.forR (fun a i => PyR.addSignR a (PyR.findSign n i)) acc ids =
+      if ids.all (fun i => n.sids.contains i) then .ok { acc with signs := acc.signs ++ ids.filterMap (PyR.findSign n) }
+      else .error .assert := by
+  intro ids
+  induction ids with
+  | nil => intro acc _ _; simp [PyR.forR]
+  | cons i is ih =>
+    intro acc hnd hdis
+    rw [List.nodup_cons] at hnd
+    have hn : (PyR.findSign n i).isNone = !(n.sids.contains i) := find_isNone (fun (x : Elem) => x.1) n.signs i
+    rcases hf : PyR.findSign n i with _ | e
+    · have hc : i ∉ n.sids := by simpa [hf] using hn
+      simp only [PyR.forR]
+      rw [hf]
+      simp [PyR.addSignR, PyR.bindR, hc]
+    · have hc : n.sids.contains i = true := by simpa [hf] using hn
+      have hid : e.1 = i := (find_some_key (fun (x : Elem) => x.1) n.signs i e hf).1
+      have hnot : e.1 ∉ acc.sids := by
+        have := hdis i (List.mem_cons_self ..)
+        simpa [hid] using this
+      have hadd : PyR.addSignR acc (some e) = .ok { acc with signs := acc.signs ++ [e] } := by
+        simp [PyR.addSignR, hnot]
+      simp only [PyR.forR]
+      rw [hf, hadd]
+      simp only [PyR.bindR]
+      rw [ih _ hnd.2]
+      · have hc' : i ∈ n.sids := by simpa using hc
+        simp [hc', hf, List.append_assoc]
+      · intro j hj
+        have hji : j ≠ i := fun e => hnd.1 (e ▸ hj)
+        have := hdis j (List.mem_cons_of_mem _ hj)
+        simp [Net.sids, hid] at this ⊢
+        exact ⟨this, fun e => hji e⟩
+
+theorem forR_addLight (n : Net) : ∀ (ids : List Id) (acc : Net), ids.Nodup → (∀ i ∈ ids, i ∉ acc.tids) →
+    PyR.forR (fun a i => PyR.addLightR a (PyR.findLight n i)) acc ids =
+      if ids.all (fun i => n.tids.contains i) then .ok { acc with lights := acc.lights ++ ids.filterMap (PyR.findLight n) }
+      else .error .assert := by
+  intro ids
+  induction ids with
+  | nil => intro acc _ _; simp [PyR.forR]
+  | cons i is ih =>
+    intro acc hnd hdis
+    rw [List.nodup_cons] at hnd
+    have hn : (PyR.findLight n i).isNone = !(n.tids.contains i) := find_isNone (fun (x : Elem) => x.1) n.lights i
+    rcases hf : PyR.findLight n i with _ | e
+    · have hc : i ∉ n.tids := by simpa [hf] using hn
+      simp only [PyR.forR]
+      rw [hf]
+      simp [PyR.addLightR, PyR.bindR, hc]
+    · have hc : n.tids.contains i = true := by simpa [hf] using hn
+      have hid : e.1 = i := (find_some_key (fun (x : Elem) => x.1) n.lights i e hf).1
+      have hnot : e.1 ∉ acc.tids := by
+        have := hdis i (List.mem_cons_self ..)
+        simpa [hid] using this
+      have hadd : PyR.addLightR acc (some e) = .ok { acc with lights := acc.lights ++ [e] } := by
+        simp [PyR.addLightR, hnot]
+      simp only [PyR.forR]
+      rw [hf, hadd]
+      simp only [PyR.bindR]
+      rw [ih _ hnd.2]
+      · have hc' : i ∈ n.tids := by simpa using hc
+        simp [hc', hf, List.append_assoc]
+      · intro j hj
+        have hji : j ≠ i := fun e => hnd.1 (e ▸ hj)
+        have := hdis j (List.mem_cons_of_mem _ hj)
+        simp [Net.tids, hid] at this ⊢
+        exact ⟨this, fun e => hji e⟩
+
+theorem forR_addLanelet (n : Net) : ∀ (ids : List Id) (acc : Net), ids.Nodup → (∀ i ∈ ids, i ∉ acc.lids) →
+    PyR.forR (fun a i => PyR.addLaneletR a (PyR.findLanelet n i)) acc ids =
+      if ids.all (fun i => n.lids.contains i) then .ok { acc with lanelets := acc.lanelets ++ ids.filterMap (PyR.findLanelet n) }
+      else .error .assert := by
+  intro ids
+  induction ids with
+  | nil => intro acc _ _; simp [PyR.forR]
+  | cons i is ih =>
+    intro acc hnd hdis
+    rw [List.nodup_cons] at hnd
+    have hn : (PyR.findLanelet n i).isNone = !(n.lids.contains i) := find_isNone (fun (x : Lanelet) => x.id) n.lanelets i
+    rcases hf : PyR.findLanelet n i with _ | e
+    · have hc : i ∉ n.lids := by simpa [hf] using hn
+      simp only [PyR.forR]
+      rw [hf]
+      simp [PyR.addLaneletR, PyR.bindR, hc]
+    · have hc : n.lids.contains i = true := by simpa [hf] using hn
+      have hid : e.id = i := (find_some_key (fun (x : Lanelet) => x.id) n.lanelets i e hf).1
+      have hnot : e.id ∉ acc.lids := by
+        have := hdis i (List.mem_cons_self ..)
+        simpa [hid] using this
+      have hadd : PyR.addLaneletR acc (some e) = .ok { acc with lanelets := acc.lanelets ++ [e] } := by
+        simp [PyR.addLaneletR, PyR.addLanelet, hnot]
+      simp only [PyR.forR]
+      rw [hf, hadd]
+      simp only [PyR.bindR]
+      rw [ih _ hnd.2]
+      · have hc' : i ∈ n.lids := by simpa using hc
+        simp [hc', hf, List.append_assoc]
+      · intro j hj
+        have hji : j ≠ i := fun e => hnd.1 (e ▸ hj)
+        have := hdis j (List.mem_cons_of_mem _ hj)
+        simp [Net.lids, hid] at this ⊢
+        exact ⟨this, fun e => hji e⟩
+
+theorem cut_id (P : Id → Bool) (i j : Intersection) (h : i.cut P = some j) : j.id = i.id := by
+  unfold Intersection.cut at h
+  dsimp only at h
+  split at h
+  · simp at h
+  · simp at h; rw [← h]
+
+/-- the loop over the old intersections (body = the translated piece, `add_intersection` = PyR.addInter): with pairwise
+different intersection ids no `add_intersection` is refused, the loop is `filterMap Intersection.cut` -/
+theorem foldl_addInter (ids : List Id) : ∀ (xs : List Intersection) (acc : Net), (xs.map (·.id)).Nodup →
+    (∀ i ∈ xs, i.id ∉ acc.iids) → (∀ i ∈ xs, i.crossings.Nodup) →
+    xs.foldl (fun a i => PyR.addInterO a (Gen.LaneletNetwork_cut_intersection ids i)) acc =
+      { acc with inters := acc.inters ++ xs.filterMap (·.cut (fun a => ids.contains a)) } := by
+  intro xs
+  induction xs with
+  | nil => intro acc _ _ _; simp
+  | cons x xs ih =>
+    intro acc hnd hdis hcr
+    rw [List.map_cons, List.nodup_cons] at hnd
+    simp only [List.foldl_cons]
+    rw [tie_cut_intersection ids x (hcr x (List.mem_cons_self ..))]
+    rcases hcut : x.cut (fun a => ids.contains a) with _ | j
+    · show List.foldl _ acc xs = _
+      rw [ih acc hnd.2 (fun i hi => hdis i (List.mem_cons_of_mem _ hi)) (fun i hi => hcr i (List.mem_cons_of_mem _ hi))]
+      simp only [List.filterMap_cons, hcut]
+    · have hj : j.id = x.id := cut_id _ x j hcut
+      have hnot : j.id ∉ acc.iids := hj ▸ hdis x (List.mem_cons_self ..)
+      have hadd : PyR.addInter acc j = { acc with inters := acc.inters ++ [j] } := by simp [PyR.addInter, hnot]
+      show List.foldl _ (PyR.addInter acc j) xs = _
+      rw [hadd]
+      rw [ih _ hnd.2 _ (fun i hi => hcr i (List.mem_cons_of_mem _ hi))]
+      · simp only [List.filterMap_cons, hcut]
+        simp [List.append_assoc]
+      · intro i hi
+        have h1 := hdis i (List.mem_cons_of_mem _ hi)
+        have h2 : i.id ≠ x.id := fun e => hnd.1 (e ▸ List.mem_map_of_mem hi)
+        simp [Net.iids, hj] at h1 ⊢
+        exact ⟨h1, fun e => h2 e⟩
+
+theorem filterMap_find_self (n : Net) (hl : n.lids.Nodup) (ys : List Lanelet) (h : ∀ l ∈ ys, l ∈ n.lanelets) :
+    (ys.map (·.id)).filterMap (PyR.findLanelet n) = ys := by
+  induction ys with
+  | nil => rfl
+  | cons y ys ih =>
+    have hy : PyR.findLanelet n y.id = some y := find_some_self (fun (x : Lanelet) => x.id) n.lanelets hl y (h y (List.mem_cons_self ..))
+    simp only [List.map_cons, List.filterMap_cons, hy]
+    rw [ih (fun l hl' => h l (List.mem_cons_of_mem _ hl'))]
+
+/-- looking up the ids of a duplicate-free id set `ids` (same members as `R`) in a dict `xs`: the values whose key is in
+`R`, up to order -/
+theorem found_perm (xs : List Elem) (hx : (xs.map (·.1)).Nodup) (ids R : List Id) (hid : ids.Nodup) (hm : ∀ a, a ∈ ids ↔ a ∈ R) :
+    (ids.filterMap (fun i => xs.find? (fun s => s.1 == i))).Perm (xs.filter (fun s => R.contains s.1)) := by
+  have hxs : xs.Nodup := List.Pairwise.of_map (·.1) (fun a b hab e => hab (e ▸ rfl)) hx
+  apply (List.perm_ext_iff_of_nodup ?_ (List.Nodup.sublist List.filter_sublist hxs)).mpr
+  · intro e
+    rw [List.mem_filterMap, List.mem_filter]
+    constructor
+    · rintro ⟨i, hi, hf⟩
+      have := find_some_key (·.1) xs i e hf
+      refine ⟨this.2, ?_⟩
+      have : e.1 ∈ R := (hm _).mp (this.1 ▸ hi)
+      simpa using this
+    · rintro ⟨he, hr⟩
+      have hr' : e.1 ∈ R := by simpa using hr
+      exact ⟨e.1, (hm _).mpr hr', find_some_self (·.1) xs hx e he⟩
+  · refine List.Pairwise.filterMap _ ?_ hid
+    intro a a' hne b hb b' hb' e
+    have h1 := (find_some_key (·.1) xs a b hb).1
+    have h2 := (find_some_key (·.1) xs a' b' hb').1
+    exact hne (by rw [← h1, ← h2, e])
+
+/-- two networks that differ at most in the ORDER of their sign / light dicts (a Python set is iterated in an order the
+model does not fix; lanelets and intersections come in network order on both sides) -/
+def Net.same (a b : Net) : Prop :=
+  a.lanelets = b.lanelets ∧ a.inters = b.inters ∧ a.signs.Perm b.signs ∧ a.lights.Perm b.lights
+
+def sameRes : Res Net → Res Net → Prop
+  | .ok a, .ok b => a.same b
+  | .error e, .error e' => e = e'
+  | _, _ => False
+
+/-- THE WHOLE CUT-OUT.  `create_from_lanelet_network` — first loop, loop over the old intersections with add_intersection,
+the adding loops over the selected sign / light / lanelet ids (AssertionError when a kept lanelet references a sign / light
+the network does not hold), the `if cleanup_ids: cleanup_lanelet_references()` call, the return — is the model's
+`Net.cutOut`: same exception, or the same network up to the order of the sign / light dicts.  Hypotheses = what Python dicts
+and sets are: keys pairwise different, `crossings` without duplicates. -/
+theorem tie_create_from_lanelet_network (n : Net) (keep : Id → Bool) (c : Bool)
+    (hl : n.lids.Nodup) (hs : n.sids.Nodup) (ht : n.tids.Nodup) (hi : n.iids.Nodup) (hc : ∀ i ∈ n.inters, i.crossings.Nodup) :
+    sameRes (Gen.LaneletNetwork_create_from_lanelet_network n keep c) (n.cutOut keep c) := by
+  obtain ⟨hsel1, hnd1, hnd2⟩ := cut_select_exact n keep
+  have hsel1 := hsel1 hl
+  obtain ⟨_, m2, m3⟩ := tie_cut_select n keep
+  unfold Gen.LaneletNetwork_create_from_lanelet_network Gen.LaneletNetwork_cut_assemble Net.cutOut
+  simp only []
+  generalize Gen.LaneletNetwork_cut_select n keep = sel at *
+  rw [foldl_addInter sel.1 n.inters PyR.emptyNet hi (by simp [PyR.emptyNet, Net.iids]) hc]
+  rw [forR_addSign n sel.2.1 _ hnd1 (by simp [PyR.emptyNet, Net.sids])]
+  rw [all_congr_mem _ _ _ m2]
+  have hkn : ((n.cutKept keep).map (·.id)).Nodup :=
+    List.Nodup.sublist (List.Sublist.map _ List.filter_sublist) hl
+  have hkall : ((n.cutKept keep).map (·.id)).all (fun i => n.lids.contains i) = true := by
+    simp only [List.all_eq_true, List.mem_map]
+    rintro i ⟨l, hl', rfl⟩
+    have : l.id ∈ n.lids := List.mem_map_of_mem (List.mem_filter.mp hl').1
+    simpa using this
+  by_cases hA : ((n.cutKept keep).flatMap (·.signs)).all (fun a => n.sids.contains a) = true
+  · simp only [hA, if_true, PyR.bindR, Bool.not_true, Bool.false_eq_true, if_false]
+    rw [forR_addLight n sel.2.2 _ hnd2 (by simp [PyR.emptyNet, Net.tids])]
+    rw [all_congr_mem _ _ _ m3]
+    by_cases hB : ((n.cutKept keep).flatMap (·.lights)).all (fun a => n.tids.contains a) = true
+    · simp only [hB, if_true, Bool.not_true, Bool.false_eq_true, if_false]
+      rw [forR_addLanelet n sel.1 _ (hsel1 ▸ hkn) (by simp [PyR.emptyNet, Net.lids])]
+      rw [hsel1, hkall]
+      have hfm : ((n.cutKept keep).map (·.id)).filterMap (PyR.findLanelet n) = n.cutKept keep :=
+        filterMap_find_self n hl (n.cutKept keep) (fun l h => (List.mem_filter.mp (show l ∈ n.lanelets.filter _ from h)).1)
+      simp only [if_true, PyR.emptyNet, List.nil_append, hfm, tie_cleanup_lanelet_references]
+      have hS := found_perm n.signs hs sel.2.1 _ hnd1 m2
+      have hT := found_perm n.lights ht sel.2.2 _ hnd2 m3
+      cases c
+      · simp only [sameRes, Net.same, Net.cutBase, Bool.not_false, Bool.not_true, Bool.false_eq_true, if_false, if_true]
+        exact ⟨trivial, trivial, hS, hT⟩
+      · simp only [sameRes, Net.same, Net.cutBase, Net.cleanupLaneletRefs, Net.lids, Bool.not_false, Bool.not_true,
+          Bool.false_eq_true, if_false, if_true]
+        exact ⟨trivial, trivial, hS, hT⟩
+    · have hB' := (Bool.not_eq_true _).mp hB
+      simp only [hB', Bool.false_eq_true, if_false, Bool.not_false, if_true, sameRes]
+  · have hA' := (Bool.not_eq_true _).mp hA
+    simp only [hA', Bool.false_eq_true, if_false, Bool.not_false, if_true, sameRes, PyR.bindR]
 
 end CR.Refs
